@@ -66,6 +66,11 @@ func crashWorkloads() []crashWorkload {
 		// one table per commit and no compaction: twelve tables in L0 (indices with one and two digits) at the crash
 		{"W9-many-tables", dbCfg{Mem: 1, Imm: 1, Block: 4096, L0: 14, Ratio: 2, SL: 1},
 			[]txProg{wtx("Sa"), wtx("Sb"), wtx("Sc"), wtx("Sd"), wtx("Sa"), wtx("Db"), wtx("Sc"), wtx("Sd"), wtx("Sa"), wtx("Sb"), wtx("Sc"), wtx("Dd")}, false, nil},
+		// multi-key transactions with deletes of keys whose old versions sit in deeper levels, a compaction on every flush
+		// (one table per commit, L0 holds one: a table moves down when the next one arrives, by then the read watermark has
+		// passed its commit; the tombstone of a meets the old a in L1, the deepest level, two commits later)
+		{"W10-multikey-deletes-cascade", dbCfg{Mem: 1, Imm: 1, Block: 4096, L0: 1, Ratio: 4, SL: 2},
+			[]txProg{wtx("Sa", "Sb"), wtx("Sd"), wtx("Da", "Sb"), wtx("Sd"), wtx("Sc"), wtx("Sa", "Dd")}, false, nil},
 		// two goroutines commit multi-key transactions on disjoint keys at the same time, with rotation
 		{"W8-two-committers", dbCfg{Mem: 70, Imm: 1, Block: 4096, L0: 2, Ratio: 2, SL: 1},
 			[]txProg{wtx("Sa", "Sc"), wtx("Sa", "Sb"), wtx("Db", "Sa"), wtx("Sc", "Sd"), wtx("Dc", "Sd")}, true, [][]int{{1, 2}, {3, 4}}},
